@@ -26,6 +26,9 @@ def lDrop (l : List α) (n : Int) : Res (List α) :=
 /-- `(range lo hi)`: the integers `lo ≤ x < hi`; negative bounds are an error -/
 def lRange (lo hi : Int) : Res (List Int) :=
   if lo < 0 ∨ hi < 0 then .err else .ok ((List.range (hi - lo).toNat).map fun (i : Nat) => lo + (i : Int))
+/-- `(immutable-vector-take v n)`: at most `n`; `(immutable-vector-drop v n)`: at most `n` — no error beyond the length -/
+def iTake (v : List α) (n : Int) : Res (List α) := if n < 0 then .err else .ok (v.take n.toNat)
+def iDrop (v : List α) (n : Int) : Res (List α) := if n < 0 then .err else .ok (v.drop n.toNat)
 /-- `(substring s i)` / `(string->list s i)`: to the end -/
 def strFrom (s : List Char) (i : Int) : Res (List Char) :=
   if i < 0 || i.toNat > s.length then .err else .ok (s.drop i.toNat)
@@ -123,6 +126,46 @@ def vectorPush (v : List α) (x : α) : List α := v ++ [x]
 
 /-- `vector-append`: `let mut vector = Vec::new(); for arg in args { vector.extend(..) }` -/
 def vectorAppend (args : List (List α)) : List α := args.foldl (fun acc a => acc ++ a) []
+
+/-! ## immutable vectors (`vectors.rs`, `imbl::Vector`): every update has a branch for a uniquely owned vector
+(`Gc::get_mut` succeeds: in place) and one for a shared vector (a copy) -/
+
+/-- `vec_ref`, `VectorV` branch: `if idx_usize < v.len() { Ok(v[idx_usize].clone()) } else { stop! }` -/
+def ivRef (v : List α) (i : Int) : Res α :=
+  if i < 0 then .err
+  else if i.toNat < v.length then (match v[i.toNat]? with | some x => .ok x | none => .err)
+  else .err
+
+/-- `immutable_vector_set(vector, index: usize, value)`: both branches check `index >= v.len()` first -/
+def ivSet (unique : Bool) (v : List α) (index : Int) (x : α) : Res (List α) :=
+  match asUsize index with
+  | none => .err
+  | some p =>
+    if unique then (if p ≥ v.length then .err else .ok (v.set p x))
+    else (if p ≥ v.length then .err else .ok (v.set p x))
+
+/-- `immutable_vector_take(vector, count: usize)`: unique: `v.truncate(count)`; shared: `v.take(count.min(v.len()))` -/
+def ivTake (unique : Bool) (v : List α) (count : Int) : Res (List α) :=
+  match asUsize count with
+  | none => .err
+  | some c => if unique then .ok (v.take c) else .ok (v.take (min c v.length))
+
+/-- `for _ in 0..count { v.pop_front(); }` (`pop_front` of an empty vector is `None`) -/
+def popFrontLoop : List α → Nat → List α
+  | v, 0 => v
+  | v, n + 1 => popFrontLoop v.tail n
+
+/-- `immutable_vector_drop(vector, count: usize)`: unique: the `pop_front` loop; shared: `v.skip(count)` -/
+def ivDrop (unique : Bool) (v : List α) (count : Int) : Res (List α) :=
+  match asUsize count with
+  | none => .err
+  | some c => if unique then .ok (popFrontLoop v c) else .ok (v.drop c)
+
+/-- `immutable_vector_rest`: `v.pop_front()` in both branches -/
+def ivRest (v : List α) : List α := v.tail
+
+/-- `immutable_vector_append`: `let mut vector = Vector::new(); while let Some(vec) = rest.next() { vector.extend(..) }` -/
+def ivAppend (args : List (List α)) : List α := args.foldl (fun acc a => acc ++ a) []
 
 /-! ## byte vectors (`bytevectors.rs`) -/
 
@@ -301,6 +344,110 @@ def imblSubset (self other : List κ) : Bool := self.all fun a => other.contains
 end Maps
 end Prim
 
+/-! ## The shape of the code that P transcribes
+
+`translate/c11_prims.py` reads the bodies of the primitives on every run and writes what it finds as
+`codePrim : PrimShape` (GenPrim.lean); `GenSound.code_prims_modelled` decides `codePrim = PrimShape.modelled`.  One field
+per fact P relies on: e.g. `unionLeftRight = 4 ∧ unionSwapped = 0`: each of the four ownership branches of `hm_union`
+calls `<left>.union(<right>)`; `lastIndexesFromLength`: `last` is `len.checked_sub(1).and_then(get)`;
+`boundsChecksInOrder`: the ten steps of `fn bounds` occur in the order `Prim.bounds` has them. -/
+
+structure PrimShape where
+  unionBranches : Nat
+  unionLeftRight : Nat
+  unionSwapped : Nat
+  constructInsertsPairwise : Bool
+  hashRefErrsOnMissing : Bool
+  tryGetFalseOnMissing : Bool
+  hashInsertBothBranchesInsert : Bool
+  hashRemoveBothBranchesRemove : Bool
+  hashContainsIsContainsKey : Bool
+  keysValuesIterate : Bool
+  hashsetConstructInserts : Bool
+  hashsetDifferenceSymmetric : Bool
+  hashsetUnionLeftRight : Bool
+  hashsetInterLeftRight : Bool
+  hashsetSubsetLeftRight : Bool
+  listRefNegThenGet : Bool
+  listTailIsTail : Bool
+  takeNegThenRebuild : Bool
+  lastIndexesFromLength : Bool
+  appendEmptyFirstSpecialCase : Bool
+  rangeNegCheck : Bool
+  restErrsOnEmpty : Bool
+  reverseIsReverse : Bool
+  dropIsCdrLoop : Bool
+  vectorRefNegThenBound : Bool
+  vectorSetGetMut : Bool
+  vectorPushPushes : Bool
+  vectorAppendExtends : Bool
+  ivSetBoundCheckBothBranches : Bool
+  ivTakeTruncateOrMin : Bool
+  ivDropLoopOrSkip : Bool
+  ivRestPopsFront : Bool
+  ivPushPushesBack : Bool
+  ivAppendExtends : Bool
+  bytesNewConvertsU8 : Bool
+  bytesRefGet : Bool
+  bytesSetBoundCheck : Bool
+  bytesPushU8 : Bool
+  bytesAppendExtends : Bool
+  stringRefGuardsByteLen : Bool
+  boundsChecksInOrder : Bool
+  substringUsesBounds : Bool
+  stringToListUsesBounds : Bool
+  stringLengthCountsChars : Bool
+  stringAppendFolds : Bool
+  deriving DecidableEq, Repr
+
+/-- the shape `Prim.*` was transcribed from -/
+def PrimShape.modelled : PrimShape :=
+  { unionBranches := 4,
+    unionLeftRight := 4,
+    unionSwapped := 0,
+    constructInsertsPairwise := true,
+    hashRefErrsOnMissing := true,
+    tryGetFalseOnMissing := true,
+    hashInsertBothBranchesInsert := true,
+    hashRemoveBothBranchesRemove := true,
+    hashContainsIsContainsKey := true,
+    keysValuesIterate := true,
+    hashsetConstructInserts := true,
+    hashsetDifferenceSymmetric := true,
+    hashsetUnionLeftRight := true,
+    hashsetInterLeftRight := true,
+    hashsetSubsetLeftRight := true,
+    listRefNegThenGet := true,
+    listTailIsTail := true,
+    takeNegThenRebuild := true,
+    lastIndexesFromLength := true,
+    appendEmptyFirstSpecialCase := true,
+    rangeNegCheck := true,
+    restErrsOnEmpty := true,
+    reverseIsReverse := true,
+    dropIsCdrLoop := true,
+    vectorRefNegThenBound := true,
+    vectorSetGetMut := true,
+    vectorPushPushes := true,
+    vectorAppendExtends := true,
+    ivSetBoundCheckBothBranches := true,
+    ivTakeTruncateOrMin := true,
+    ivDropLoopOrSkip := true,
+    ivRestPopsFront := true,
+    ivPushPushesBack := true,
+    ivAppendExtends := true,
+    bytesNewConvertsU8 := true,
+    bytesRefGet := true,
+    bytesSetBoundCheck := true,
+    bytesPushU8 := true,
+    bytesAppendExtends := true,
+    stringRefGuardsByteLen := true,
+    boundsChecksInOrder := true,
+    substringUsesBounds := true,
+    stringToListUsesBounds := true,
+    stringLengthCountsChars := true,
+    stringAppendFolds := true }
+
 /-! ## The operation language, and the two models run side by side
 
 One state with six registers (hash map, hash set, list, mutable vector, byte vector, string), as in the
@@ -323,6 +470,9 @@ inductive Op
   | lDrop (n : Int) | lAppend (before after : List (List Int)) | lReverse | lCons (x : Int) | lRange (lo hi : Int)
   -- mutable vectors
   | vNew (xs : List Int) | vLen | vRef (i : Int) | vSet (i x : Int) | vPush (x : Int) | vAppend (before after : List (List Int))
+  -- immutable vectors (`unique`: the vector is uniquely owned, the primitive updates in place)
+  | iNew (xs : List Int) | iLen | iRef (i : Int) | iPush (x : Int) | iSet (unique : Bool) (i x : Int)
+  | iTake (unique : Bool) (n : Int) | iDrop (unique : Bool) (n : Int) | iRest | iAppend (before after : List (List Int))
   -- byte vectors
   | bNew (xs : List Int) | bLen | bRef (i : Int) | bSet (i x : Int) | bPush (x : Int) | bAppend (before after : List (List Int))
   -- strings
@@ -348,6 +498,7 @@ structure St where
   cs : List Int := []
   cl : List Int := []
   cv : List Int := []
+  ci : List Int := []
   cb : List Int := []
   ct : List Char := []
   deriving Repr
@@ -416,6 +567,15 @@ def stepP (s : St) : Op → St × Ans
   | .vSet i x => let r := updSeq s.cv (vectorSet s.cv i x); ({ s with cv := r.1 }, r.2)
   | .vPush x => let c := vectorPush s.cv x; ({ s with cv := c }, .seq c)
   | .vAppend before after => let c := vectorAppend (before ++ [s.cv] ++ after); ({ s with cv := c }, .seq c)
+  | .iNew xs => ({ s with ci := xs }, .seq xs)
+  | .iLen => (s, .int s.ci.length)
+  | .iRef i => (s, resInt (ivRef s.ci i))
+  | .iPush x => let c := s.ci ++ [x]; ({ s with ci := c }, .seq c)
+  | .iSet u i x => let r := updSeq s.ci (ivSet u s.ci i x); ({ s with ci := r.1 }, r.2)
+  | .iTake u n => let r := updSeq s.ci (ivTake u s.ci n); ({ s with ci := r.1 }, r.2)
+  | .iDrop u n => let r := updSeq s.ci (ivDrop u s.ci n); ({ s with ci := r.1 }, r.2)
+  | .iRest => let c := ivRest s.ci; ({ s with ci := c }, .seq c)
+  | .iAppend before after => let c := ivAppend (before ++ [s.ci] ++ after); ({ s with ci := c }, .seq c)
   | .bNew xs => let r := updSeq s.cb (bytesNew xs); ({ s with cb := r.1 }, r.2)
   | .bLen => (s, .int s.cb.length)
   | .bRef i => (s, resInt (bytesRef s.cb i))
@@ -496,6 +656,15 @@ def stepS (s : St) : Op → St × Ans
   | .vSet i x => let r := updSeq s.cv (vSet s.cv i x); ({ s with cv := r.1 }, r.2)
   | .vPush x => let c := vPush s.cv x; ({ s with cv := c }, .seq c)
   | .vAppend before after => let c := (before ++ [s.cv] ++ after).flatten; ({ s with cv := c }, .seq c)
+  | .iNew xs => ({ s with ci := xs }, .seq xs)
+  | .iLen => (s, .int s.ci.length)
+  | .iRef i => (s, resInt (vRef s.ci i))
+  | .iPush x => let c := vPush s.ci x; ({ s with ci := c }, .seq c)
+  | .iSet _ i x => let r := updSeq s.ci (vSet s.ci i x); ({ s with ci := r.1 }, r.2)
+  | .iTake _ n => let r := updSeq s.ci (iTake s.ci n); ({ s with ci := r.1 }, r.2)
+  | .iDrop _ n => let r := updSeq s.ci (iDrop s.ci n); ({ s with ci := r.1 }, r.2)
+  | .iRest => let c := s.ci.drop 1; ({ s with ci := c }, .seq c)
+  | .iAppend before after => let c := (before ++ [s.ci] ++ after).flatten; ({ s with ci := c }, .seq c)
   | .bNew xs => let r := updSeq s.cb (bMake xs); ({ s with cb := r.1 }, r.2)
   | .bLen => (s, .int s.cb.length)
   | .bRef i => (s, resInt (vRef s.cb i))
